@@ -25,7 +25,7 @@ def marginal_ob(cls, R_is_one):
         Dd, Dm = sym("D"), sym("Dm")
         diag = cls == "GaussianDiagPDF"
         p = build.pdf(I, R, Dd, "p", cls=cls, args="Sigma" if diag else "full", diag=diag)
-        dims = build.indices("dims", Dm)
+        dims = build.indices("dims", Dm, distinct=True)
         q = I.call_method(p, "get_marginal", [dims])
         if q.cls != cls:
             raise Refuted(f"get_marginal of a {cls} returns a {q.cls}", f"{P}::{cls}.get_marginal")
@@ -63,11 +63,12 @@ def all_coordinates_ob(cls):
               f"{P}::{cls}.get_marginal", group="marginal")
 
 
-def linsum_ob(with_b, R_is_one):
+def linsum_ob(with_b, R_is_one, square=False):
     def run():
         I = build.new_interp()
         R = D(1) if R_is_one else sym("R")
-        Dd, Ds = sym("D"), sym("Ds")
+        Dd = sym("D")
+        Ds = Dd if square else sym("Ds")          # square: a (generic, non-symmetric) change of variables W [R, D, D]
         p = build.pdf(I, R, Dd, "p")
         W = nf.atom("W", [R, Ds, Dd])
         kw = {}
@@ -84,7 +85,7 @@ def linsum_ob(with_b, R_is_one):
         d += [("mu",) + tuple(x) for x in nf.diff(q.f["mu"], mref, what="linear-sum mu")[:5]]
         d += derived_diffs(q, Sref, "linear sum")
         return d, dict(funcs=funcs_of(I))
-    return Ob(f"linsum/b={int(with_b)}/R={'1' if R_is_one else 'R'}", run, "get_density_of_linear_sum(W,b) == N(W mu + b, W Sigma W'), b optional, Dsum != D generic",
+    return Ob(f"linsum/b={int(with_b)}/R={'1' if R_is_one else 'R'}" + ("/square" if square else ""), run, "get_density_of_linear_sum(W,b) == N(W mu + b, W Sigma W'), b optional, Dsum != D generic",
               f"{P}::GaussianPDF.get_density_of_linear_sum", group="linsum")
 
 
@@ -97,9 +98,10 @@ def obligations(tier):
     for wb in (False, True):
         for r1 in (False, True):
             obs.append(linsum_ob(wb, r1))
+    obs.append(linsum_ob(True, False, square=True))
     return obs
 
 
-FLOORS = {"group:marginal": 6, "group:linsum": 4}
+FLOORS = {"group:marginal": 6, "group:linsum": 5}
 LEVEL = "proof"
 EXPLANATION = "get_marginal (full, diagonal) and get_density_of_linear_sum interpreted on generic tensors; compared with (P mu, P Sigma P') / (W mu + b, W Sigma W') and with the Normal log-density of the result."
